@@ -102,6 +102,15 @@ def Sense__iter_sense_synset_relations(self, *args):
             in get_sense_synset_relations(self._id, args, SCOPE(self))]
 
 
+def Word_translate(self, lexicon=None, *, lang=None):
+    # word translation is the image of sense translation: for each sense of the word, the words of the senses it
+    # translates to (a sense whose synset has no ILI translates to nothing - decided in Sense/Synset.translate)
+    result = {}
+    for sense in self.senses():
+        result[sense] = [t_sense.word() for t_sense in sense.translate(lang=lang, lexicon=lexicon)]
+    return result
+
+
 def Sense_translate(self, lexicon=None, *, lang=None):
     return [t_sense
             for t_synset in self.synset().translate(lang=lang, lexicon=lexicon)
